@@ -77,10 +77,14 @@ fn montgomery(x: &BigUint, y: &BigUint, m: &BigUint, k: BigDigit, n: usize) -> B
 
     if c == 0 {
         z.data = z.data[n..].to_vec();
+        #[cfg(num_bigint_verif)]
+        crate::verif_probe::hit(30);
     } else {
         {
             let (first, second) = z.data.split_at_mut(n);
             sub_vv(first, second, &m.data);
+            #[cfg(num_bigint_verif)]
+            crate::verif_probe::hit(31);
         }
         z.data = z.data[..n].to_vec();
     }
@@ -216,11 +220,39 @@ pub(super) fn monty_modpow(x: &BigUint, y: &BigUint, m: &BigUint) -> BigUint {
         // in case our beliefs are wrong.
         // The div is not expected to be reached.
         zz -= m;
+        #[cfg(num_bigint_verif)]
+        crate::verif_probe::hit(32);
         if zz >= *m {
             zz %= m;
+            #[cfg(num_bigint_verif)]
+            crate::verif_probe::hit(33);
         }
     }
 
     zz.normalize();
     zz
+}
+
+#[cfg(num_bigint_verif)]
+pub mod verif {
+    //! Verification-only wrappers around private functions.
+    use super::BigUint;
+    use alloc::vec::Vec;
+    pub fn inv_mod_alt(b: u64) -> u64 {
+        super::inv_mod_alt(b)
+    }
+    pub fn montgomery(x: &BigUint, y: &BigUint, m: &BigUint, k: u64, n: usize) -> BigUint {
+        super::montgomery(x, y, m, k, n)
+    }
+    pub fn add_mul_vvw(mut z: Vec<u64>, x: &[u64], y: u64) -> (Vec<u64>, u64) {
+        let c = super::add_mul_vvw(&mut z, x, y);
+        (z, c)
+    }
+    pub fn sub_vv(mut z: Vec<u64>, x: &[u64], y: &[u64]) -> (Vec<u64>, u64) {
+        let c = super::sub_vv(&mut z, x, y);
+        (z, c)
+    }
+    pub fn monty_modpow(x: &BigUint, y: &BigUint, m: &BigUint) -> BigUint {
+        super::monty_modpow(x, y, m)
+    }
 }
